@@ -20,7 +20,7 @@ func init() {
 			"(D2) the add and set-url handlers reach the code that stores or downloads a list only after validateFilterURL returned nil, and validateFilterURL returns nil only through the cleaned-path pattern match or the HTTP(S) URL validation; pathMatchesAny returns true only on a successful filepath.Match and insists on a clean absolute path; (D3) no file transport / file server / protocol registration exists in these packages and downloads use the configured HTTP client; " +
 			"(D4) the safe pattern list is written only from the configured patterns (no implicit defaults). " +
 			"Not decided: filepath.Match / Clean semantics, symlinks.",
-		RuleText: "Open sites are enumerated by resolved callee; path provenance by backward SSA slice; guards by CFG edge queries.",
+		RuleText:    "Open sites are enumerated by resolved callee; path provenance by backward SSA slice; guards by CFG edge queries.",
 		Assumptions: []string{"filepath.Clean / filepath.Match / filepath.Abs behave as documented (trusted stdlib)", "os.Stat before the pattern check reveals existence only, not content"},
 		Trusted:     commonTrusted,
 	})
